@@ -63,7 +63,8 @@ def _rand_op(rnd, keys):
 def _rand_filter(rnd, numeric=False):
     k = rnd.choice(['const', 'edit', 'edit', 'edit', 'edge', 'nfu', 'delta', 'ifoutput', 'ifnotinit'])
     if k == 'const':
-        return {'k': k, 'r': rnd.choice(['true', 'truthy', 'false', 'none'])}
+        return {'k': k, 'r': rnd.choice(['true', 'truthy', 'one', 'tuple1', 'false', 'none', 'zero', 'fzero', 'empty',
+                                         'etuple', 'elist'])}
     if k == 'edit':
         # (with a Delta filter in the pipeline the edits leave 'value' alone: Delta is
         # documented for numeric values only)
@@ -163,7 +164,9 @@ def stimuli(tier, seed, ctx):
 def _mk_filter(f, edzed):
     k = f['k']
     if k == 'const':
-        val = {'true': True, 'truthy': 'yes', 'false': False, 'none': None}[f['r']]
+        val = {'true': True, 'truthy': 'yes', 'one': 1, 'tuple1': (0,), 'false': False, 'none': None,
+               # any other false result vetoes the event as well
+               'zero': 0, 'fzero': 0.0, 'empty': '', 'etuple': (), 'elist': []}[f['r']]
         return lambda data: val
     if k == 'edge':
         kw = {'rise': f['rise'], 'fall': f['fall'], 'u_fall': f['ufall']}
